@@ -177,6 +177,9 @@ func (ctx *Ctx) contractOf(fn *ssa.Function) *Contract {
 				c.Requires = append(append([]*Clause{}, sc.Requires...), c.Requires...)
 				c.Ensures = append(c.Ensures, sc.Ensures...)
 				c.Assumes = append(c.Assumes, sc.Assumes...)
+				if c.Assigns == nil && sc.Assigns != nil {
+					c.Assigns = sc.Assigns
+				}
 				ctx.mu.Unlock()
 			}
 		}
@@ -187,11 +190,27 @@ func (ctx *Ctx) contractOf(fn *ssa.Function) *Contract {
 
 // schemasFor: schema templates applying to fn.
 func (ctx *Ctx) schemasFor(fn *ssa.Function) []*Schema {
-	if fn.Pkg == nil || fn.Signature.Recv() != nil || fn.Parent() != nil {
+	if fn.Pkg == nil || fn.Parent() != nil {
 		return nil
 	}
 	var out []*Schema
+	if recv := fn.Signature.Recv(); recv != nil {
+		tn := typeKey(derefOrSelf(recv.Type()))
+		if i := strings.LastIndex(tn, "."); i >= 0 {
+			tn = tn[i+1:]
+		}
+		full := tn + "." + fn.Name()
+		for _, s := range ctx.cs.Schemas {
+			if s.Method && s.Pkg == fn.Pkg.Pkg.Path() && s.Re.MatchString(fn.Name()) && (s.Except == nil || !s.Except.MatchString(full)) {
+				out = append(out, s)
+			}
+		}
+		return out
+	}
 	for _, s := range ctx.cs.Schemas {
+		if s.Method {
+			continue
+		}
 		if s.Pkg == fn.Pkg.Pkg.Path() && s.Re.MatchString(fn.Name()) {
 			if s.Except != nil && s.Except.MatchString(fn.Name()) {
 				continue
@@ -211,6 +230,23 @@ func (ctx *Ctx) schemasFor(fn *ssa.Function) []*Schema {
 		}
 	}
 	return out
+}
+
+// methodSchema: the method schema governing dynamic calls of method m (declared in an interface of a package with contracts).
+func (ctx *Ctx) methodSchema(m *types.Func) *Schema {
+	if m == nil || m.Pkg() == nil {
+		return nil
+	}
+	for _, s := range ctx.cs.Schemas {
+		if s.Method && s.Pkg == m.Pkg().Path() && s.Re.MatchString(m.Name()) {
+			return s
+		}
+	}
+	return nil
+}
+
+func (ctx *Ctx) isAbsMethod(m *types.Func) bool {
+	return m != nil && m.Pkg() != nil && ctx.cs.AbsMethods[m.Pkg().Path()+"."+m.Name()] && m.Type().(*types.Signature).Params().Len() == 0
 }
 
 func (ctx *Ctx) schemaForType(t types.Type) *Schema {
@@ -272,6 +308,9 @@ func (ctx *Ctx) synthContract(fn *ssa.Function) *Contract {
 		c.Requires = append(c.Requires, sch.C.Requires...)
 		c.Ensures = append(c.Ensures, sch.C.Ensures...)
 		c.Assumes = append(c.Assumes, sch.C.Assumes...)
+		if sch.C.Assigns != nil && c.Assigns == nil {
+			c.Assigns = sch.C.Assigns
+		}
 	}
 	for _, p := range fn.Params {
 		ti, ok := ctx.typeInv[typeKeyFull(p.Type())]
